@@ -81,6 +81,10 @@ class Session:
             for i in self.calls:
                 for k in ('reply', 'error'):
                     ops.append(['peer', i, k])
+                # a SIGNAL that carries the call's serial as REPLY_SERIAL (legal on the wire).  libdbus pairs messages with
+                # calls by that field alone, so it is the call's reply: the call completes with it, once - what must not
+                # happen is a half-way treatment (time-out removed, call never completed)
+                ops.append(['peer', i, 'sigserial'])
                 ops.append(['peerq', i, 'reply'])
                 # the peer numbers its messages independently: its reply to call i may itself carry the serial number of
                 # another call that is still outstanding here
@@ -145,6 +149,9 @@ class Session:
             m = R.signal(self.peer_serial, '/s', 's.s', 'Big', [R.S('b' * 9000)])
         elif kind == 'reply':
             m = R.method_return(self.peer_serial, rs, None, [R.U(1)])
+        elif kind == 'sigserial':
+            m = R.signal(self.peer_serial, '/s', 's.s', 'WithSerial', [R.U(1)])
+            m.fields.append((R.F_REPLY_SERIAL, (b'u', rs)))
         else:
             m = R.error(self.peer_serial, rs, 'peer.Err', None, [R.S('e')])
         return R.encode_message(m).hex()
@@ -194,7 +201,7 @@ class Session:
                     out.append(Violation('wrong-reply-paired', c['outcome'][0], '%s: call %d (serial %d) completed with %s' % (opdesc, i, c['serial'], result), None))
                 kind = c['outcome']
                 if kind[0] == 'reply':
-                    want_type = '2' if kind[1] == 'reply' else '3'
+                    want_type = {'reply': '2', 'sigserial': '4'}.get(kind[1], '3')
                     if kv.get('type') != want_type or (kind[1] == 'error' and kv.get('err') != 'peer.Err'):
                         out.append(Violation('wrong-reply-paired', 'content', '%s: call %d completed with %s, expected the peer\'s %s' % (opdesc, i, result, kind[1]), None))
                 else:
